@@ -479,3 +479,71 @@ Proof.
   - unfold qeqb. destruct (Qc_eq_dec x 0) as [E|_]; [contradiction|].
     split; [|intros E; contradiction]. destruct (Qc_eq_dec x (q 1 4)); intros H; apply (f_equal this) in H; vm_compute in H; discriminate.
 Qed.
+
+(* ---- the reporting site: cli/analyze_model_evaluation.main (Generated/SrcCliAnalyze.v, configuration CLI_ANALYZE of
+   harness/src_functions.py; model Model/CliAnalyze.v: a run = the list of its effects on the output directory).  "The
+   REPORTED overall MSE ..." of the property is a statement about this function. ---- *)
+From Batchie Require Import Lib.PyRt Model.Cli Model.CliAnalyze Generated.SrcCliAnalyze Proofs.C20SourceCli_Analyze.
+
+(* the WHOLE main() as translated = the model, for every library record and all parsed arguments *)
+Theorem C20_model_is_source_cli_analyze :
+  forall (Scr Th Ev Co F : Type) (L : an_lib Scr Th Ev Co F) (a : an_args),
+  src_cli_analyze Scr Th Ev Co F L a = cli_analyze L a.
+Proof. exact src_cli_analyze_is_model. Qed.
+Print Assumptions C20_model_is_source_cli_analyze.
+
+(* what a run whose loads succeed reports, in order: the similarity matrix of the loaded --screen and the concatenation of
+   ALL --thetas files (argument order); five plots; the summary of the loaded --model-evaluation, each metric under its key *)
+Theorem C20_source_report_contents :
+  forall (Scr Th Ev Co F : Type) (L : an_lib Scr Th Ev Co F) (a : an_args) hs th scr e c,
+  res_map_all (an_load_thetas L) (an_thetas a) = Ok hs ->
+  an_concat_thetas L hs = Ok th ->
+  an_load_screen L (an_screen a) = Ok scr ->
+  an_load_eval L (an_model_evaluation a) = Ok e ->
+  an_correlation_matrix L scr th = Ok c ->
+  src_cli_analyze Scr Th Ev Co F L a
+  = Ok [AnMkdir (an_output_dir a);
+        AnHeat c (an_output_dir a, N_heat);
+        AnScatter e (an_output_dir a, N_scatter);
+        AnScatterSample e (an_output_dir a, N_scatter_sample);
+        AnViolin e (an_output_dir a, N_violin) None;
+        AnViolin e (an_output_dir a, N_violin99) (Some 99%Z);
+        AnSummary (mk_an_summary (an_mse L e) (an_mse_variance L e) (an_inter_chain L e)) (an_output_dir a, N_summary)].
+Proof. exact src_cli_analyze_reports. Qed.
+Print Assumptions C20_source_report_contents.
+
+(* the REPORTED numbers are the definitions: with the TRANSLATED metric methods as the library's, at an evaluation the
+   constructor built (what the translated load_h5 returns), any summary the translated main() writes holds the mean squared
+   error over all pairs, its variance across experiments and the variance of the per-chain MSEs (NaN without experiments
+   or posterior samples) *)
+Theorem C20_source_reported_summary_def :
+  forall (Scr Th Co : Type) (L : an_lib Scr Th evaluation Co (result Qc)) (a : an_args) m P o ch nm e s,
+  an_load_eval L (an_model_evaluation a) = Ok e ->
+  mk_eval m P o ch nm = Ok e ->
+  an_mse L e = src_ev_mse e -> an_mse_variance L e = src_ev_mse_variance e ->
+  an_inter_chain L e = src_ev_inter_chain_mse_variance m e ->
+  reported_summary (src_cli_analyze Scr Th evaluation Co (result Qc) L a) = Some s ->
+  let nan := Nat.eqb (length P) 0 || Nat.eqb m 0 in
+  sum_mse s = (if nan then Err E_NAN else Ok (mse_def P o (length P) m))
+  /\ sum_mse_variance s = (if nan then Err E_NAN else Ok (mse_variance_def P o (length P) m))
+  /\ sum_inter_chain s = (if nan then Err E_NAN else Ok (inter_chain_def P o ch (length P) m)).
+Proof. exact reported_summary_is_definition. Qed.
+Print Assumptions C20_source_reported_summary_def.
+
+(* not vacuous: a library over unit screens / holders whose evaluation file holds a 2 x 2 evaluation with two chains; the run
+   reports mse 1/4, variance across experiments 1/16, inter-chain variance 1/16 *)
+Definition ex_an_eval : evaluation :=
+  {| ev_preds := [[q 1 1; q 0 1]; [q 1 2; q 1 2]]; ev_obs := [q 1 1; q 1 2]; ev_chains := [0; 1]%Z; ev_names := [[97%Z]; [98%Z]] |}.
+Definition ex_an_lib : an_lib unit (list unit) evaluation nat (result Qc) :=
+  {| an_load_thetas := fun _ => Ok [tt]; an_concat_thetas := fun l => Ok (List.concat l); an_load_screen := fun _ => Ok tt;
+     an_load_eval := fun _ => Ok ex_an_eval; an_correlation_matrix := fun _ th => Ok (length th);
+     an_mse := src_ev_mse; an_mse_variance := src_ev_mse_variance; an_inter_chain := src_ev_inter_chain_mse_variance 2 |}.
+Example C20_source_report_example :
+  mk_eval 2 (ev_preds ex_an_eval) (ev_obs ex_an_eval) (ev_chains ex_an_eval) (ev_names ex_an_eval) = Ok ex_an_eval
+  /\ match src_cli_analyze _ _ _ _ _ ex_an_lib (mk_an_args [1%Z] [2%Z] [[3%Z]; [4%Z]; [5%Z]] [6%Z]) with
+     | Ok [AnMkdir [6%Z]; AnHeat 3%nat _; AnScatter _ _; AnScatterSample _ _; AnViolin _ _ None; AnViolin _ _ (Some 99%Z);
+           AnSummary s ([6%Z], N_summary)] =>
+         sum_mse s = Ok (q 1 4) /\ sum_mse_variance s = Ok (q 1 16) /\ sum_inter_chain s = Ok (q 1 16)
+     | _ => False
+     end.
+Proof. split; [vm_compute; reflexivity|]. vm_compute. repeat split. Qed.
